@@ -371,6 +371,16 @@ func (o *Oracle) judgeProxyCallback(e *Exchange, pol *Policy) {
 	}
 	codeSess := o.openAuthCode(code)
 	redeem := firstChild(e, "redeem")
+	if e.Overlap {
+		// while two callbacks overlap, the redemption that counts is the one of this request's code
+		redeem = nil
+		for _, c := range e.Children {
+			if c.Link == L2 && endpointOf(c.Path) == "redeem" && code != "" && strings.Contains(string(c.ReqBody), "code="+url.QueryEscape(code)) {
+				redeem = c
+				break
+			}
+		}
+	}
 	redeemOK := redeem != nil && redeem.Status == 200 && redeem.Err == "" && redeem.Injected == ""
 	profile := firstChild(e, "profile")
 	flowOK := sp != nil && cp != nil && state != csrf && *sp == *cp
